@@ -165,6 +165,13 @@ m("c12-retn-handler-called-after-pop",["C12"],"op_callret.go","func oopRETN(cpu 
 m("c12-im0-overlay-end-off-by-one",["C12"],"cpu.go","\t\tend:   pc + uint16(len(d)-1),","\t\tend:   pc + uint16(len(d)),",note="overlay range one byte too long: data[len] is read when the instruction fetches one more byte")
 m("c12-dumbio-refactor",["C12","C15"],"memio.go","func (dio DumbIO) In(addr uint8) uint8 {\n\tif int(addr) >= len(dio) {\n\t\treturn 0\n\t}\n\treturn dio[addr]","func (dio DumbIO) In(addr uint8) uint8 {\n\tif int(addr) < len(dio) {\n\t\treturn dio[addr]\n\t}\n\treturn 0",expect="silent",note="guard inverted, same behaviour")
 
+
+def _eq(cond):
+    return "\tif (mm == nil) != (a == nil) || len(mm) != len(a) {\n\t\treturn false\n\t}\n\tfor k, v := range mm {\n\t\tif "+cond+" {\n\t\t\treturn false\n\t\t}\n\t}\n\treturn true\n"
+_noimp=[{"file":"memio.go","old":"import \"reflect\"\n","new":""}]
+m("c15-equal-entrywise-refactor",["C15"],"memio.go","\treturn reflect.DeepEqual(mm, a)\n",_eq("w, ok := a[k]; !ok || w != v"),edits=_noimp,expect="silent",note="hand-written entry-wise comparison, equivalent to DeepEqual on maps")
+m("c15-equal-entrywise-no-presence-test",["C15"],"memio.go","\treturn reflect.DeepEqual(mm, a)\n",_eq("a[k] != v"),edits=_noimp,note="a missing key reads as 0: zero cells at different addresses compare equal")
+m("c15-equal-entrywise-no-nil-test",["C15"],"memio.go","\treturn reflect.DeepEqual(mm, a)\n",_eq("w, ok := a[k]; !ok || w != v").replace("(mm == nil) != (a == nil) || ",""),edits=_noimp,note="nil and empty maps compare equal")
 # ---- C16
 m("c16-resetflag-and",["C16"],"flag.go","gpr.AF.Lo &= ^uint8(f)","gpr.AF.Lo &= uint8(f)")
 m("c16-getflag-all-bits",["C16"],"flag.go","return gpr.AF.Lo&uint8(f) != 0","return gpr.AF.Lo&uint8(f) == uint8(f)",note="differs only for combined masks")
